@@ -566,6 +566,11 @@ class DictT(AdtT):
         lem("set_get_same", [a, k], z3.Implies(has(a, k), st(a, k, get(a, k)) == a), [st(a, k, get(a, k))], a)
         lem("disj_set", [a, b, k, v], z3.Implies(z3.And(disj(a, b), z3.Not(has(b, k))), disj(st(a, k, v), b)),
             [disj(st(a, k, v), b)], b)
+        # delete (dict.pop / del): removes the entry of the key; with unique keys (wf) the key is gone afterwards
+        lem("has_del_ne", [a, k, k2], z3.Implies(k2 != k, has(rm(a, k), k2) == has(a, k2)), [has(rm(a, k), k2)], a)
+        lem("has_del_eq", [a, k], z3.Implies(wf(a), z3.Not(has(rm(a, k), k))), [has(rm(a, k), k)], a)
+        lem("wf_del", [a, k], z3.Implies(wf(a), wf(rm(a, k))), [wf(rm(a, k))], a)
+        lem("wf_set", [a, k, v], z3.Implies(wf(a), wf(st(a, k, v))), [wf(st(a, k, v))], a)
 
     def fn(self, k):
         return self._fn[k]
